@@ -138,7 +138,7 @@ Theorem traced_outcome E p s :
   r_out (execute_traced E p s) = TPlain (impl_run (nodes_of p) s).
 Proof.
   intros A. pose proof (any_opaque_no_raise p A) as NR.
-  unfold execute_traced, impl_run, body.
+  unfold execute_traced, impl_run, body. rewrite A, andb_false_r.
   destruct (f_inst_in_try F);
   destruct (first_unconstructible 0 (nodes_of p)) as [[j e]|] eqn:U; unfold protected; simpl; auto.
   - destruct ((f_outer_base F || negb (base_only e)) && f_end_both F); reflexivity.
@@ -163,6 +163,7 @@ Proof.
     destruct r as [s'|o base]; [|destruct ((f_outer_base F || negb base) && f_end_both F)]; simpl;
     rewrite d_emit_all_open, close_flush_open; reflexivity. }
   fold (start_rec E p).
+  destruct (f_prestart F && any_opaque F p); [reflexivity|].
   destruct (f_inst_in_try F); [apply P|].
   destruct Hc as [Hc|Hc]; [discriminate|]. rewrite Hc. apply P.
 Qed.
@@ -196,7 +197,7 @@ Theorem traced_well_formed E p s :
   well_formed E p s (execute_traced E p s).
 Proof.
   intros Hc Hb He A. pose proof (any_opaque_no_raise p A) as NR.
-  unfold well_formed, execute_traced, started, body. rewrite A. simpl negb.
+  unfold well_formed, execute_traced, started, body. rewrite A, andb_false_r. simpl negb.
   fold (the_pid E p).
   destruct (first_unconstructible 0 (nodes_of p)) as [[j e]|] eqn:U.
   - (* construction fails: only possible inside the try here *)
@@ -314,7 +315,7 @@ Lemma construction_outside_try p :
   let r := execute_traced p s0 in
   (exists st, r_emitted r = [st] /\ r_drv r = Open [st] []) /\ exists j e, r_out r = TPlain (CFailed j e).
 Proof.
-  intros Hi [-> | ->]; unfold Trace.execute_traced; rewrite Hi; simpl; split; eauto.
+  intros Hi [-> | ->]; unfold Trace.execute_traced; rewrite Hi; simpl; rewrite andb_false_r; simpl; split; eauto.
 Qed.
 
 (* F-C06-b: a BaseException-class abort of node 1: node 1 started, no SER for it; no pipeline_end *)
@@ -324,27 +325,31 @@ Lemma interrupt_not_recorded :
   started wit_interrupt s0 = [0; 1] /\ map s_node (sers_in (r_emitted r)) = [0] /\
   (f_outer_base F = false -> ends_in (r_emitted r) = 0).
 Proof.
-  intros Hn. unfold Trace.execute_traced, started. simpl.
+  intros Hn. unfold Trace.execute_traced, started. simpl. rewrite andb_false_r.
   split; [reflexivity|].
   destruct (f_inst_in_try F); unfold body, protected; simpl; unfold caught; rewrite Hn; simpl;
   (split; [destruct (f_outer_base F), (f_end_both F); reflexivity| intros ->; reflexivity]).
 Qed.
 
-(* F-C06-c / F-C10-a: metadata that is not JSON: spec dropped from pipeline_start, no SER, the call raises TypeError *)
+(* F-C06-c / F-C10-a: metadata that is not JSON: the call raises TypeError although the untraced run returns;
+   either nothing is emitted at all (ids hashed before pipeline_start) or the spec is dropped from
+   pipeline_start and the node gets no SER *)
 Lemma opaque_changes_outcome :
   f_meta_safe F = false ->
   let r := execute_traced wit_opaque s0 in
   r_out r = TTrace 0 "TypeError" /\
   (exists s', impl_run (nodes_of wit_opaque) s0 = Done s') /\
-  (exists p rid q ts, hd_error (r_emitted r) = Some (RStart p rid q ts false)) /\
+  (r_emitted r = [] \/ exists p rid q ts, hd_error (r_emitted r) = Some (RStart p rid q ts false)) /\
   sers_in (r_emitted r) = [] /\ started wit_opaque s0 = [0].
 Proof.
   intros Hm. unfold Trace.execute_traced, started, any_opaque, meta_eff. simpl. rewrite Hm. simpl.
   assert (R : forall n o, ser_raises F (mkT n MOpaque o) = true)
     by (intros; unfold ser_raises, meta_eff; simpl; rewrite Hm; reflexivity).
+  assert (I : exists s', impl_run [mkNode (lib_src false) [("value", VNum 1)] None] s0 = Done s')
+    by (eexists; vm_compute; reflexivity).
+  destruct (f_prestart F); simpl; [repeat split; auto|].
   destruct (f_inst_in_try F); unfold body, protected; simpl; rewrite R; simpl.
-  all: destruct (f_outer_base F), (f_end_both F); simpl; repeat split; eauto.
-  all: eexists; vm_compute; reflexivity.
+  all: destruct (f_outer_base F), (f_end_both F); simpl; repeat split; eauto 8.
 Qed.
 End Witnesses.
 
@@ -616,6 +621,7 @@ Theorem trace_sers_describe p s x :
   describes (the_pid F E p) 0 p s x.
 Proof.
   rewrite in_sers_in. unfold Trace.execute_traced. fold (the_pid F E p).
+  destruct (f_prestart F && any_opaque F p); [simpl; tauto|].
   destruct (f_inst_in_try F).
   - rewrite protected_sers. simpl. unfold body.
     destruct (first_unconstructible 0 (nodes_of p)) as [[j e]|]; simpl; [tauto|].
@@ -658,7 +664,8 @@ Qed.
 
 Theorem trace_chained p s : chained (sers_in (r_emitted (execute_traced p s))).
 Proof.
-  unfold Trace.execute_traced. destruct (f_inst_in_try F).
+  unfold Trace.execute_traced. destruct (f_prestart F && any_opaque F p); [simpl; auto|].
+  destruct (f_inst_in_try F).
   - rewrite protected_sers. simpl. unfold body.
     destruct (first_unconstructible 0 (nodes_of p)) as [[j e]|]; simpl; auto. apply loop_chained.
   - destruct (first_unconstructible 0 (nodes_of p)) as [[j e]|]; simpl; auto.
@@ -746,6 +753,7 @@ Theorem trace_zone_independent E off p s :
   r_out (execute_traced B D sd sc H F (set_off E off) p s) = r_out (execute_traced B D sd sc H F E p s).
 Proof.
   intros U1 U2. unfold execute_traced, protected, body, stamp. rewrite U2. simpl.
+  destruct (f_prestart F && any_opaque F p); [split; reflexivity|].
   destruct (f_inst_in_try F); destruct (first_unconstructible 0 (nodes_of p)) as [[j e]|]; simpl;
     rewrite ?(loop_zone E off _ U1); split; try reflexivity.
   all: repeat match goal with |- context [match ?x with _ => _ end] => destruct x end; reflexivity.
@@ -812,6 +820,7 @@ Proof.
   assert (Pd : the_pid F E1 p = the_pid F E2 p).
   { unfold the_pid. destruct Hc as [ -> | [ -> | -> ] ]; simpl; rewrite ?andb_false_r; reflexivity. }
   unfold Trace.execute_traced. fold (the_pid F E1 p). fold (the_pid F E2 p). rewrite Pd.
+  destruct (f_prestart F && any_opaque F p); [split; reflexivity|].
   destruct (f_inst_in_try F).
   - apply protected_repro; [reflexivity| |]; unfold body;
     destruct (first_unconstructible 0 (nodes_of p)) as [[j e]|]; auto; apply (loop_repro E1 E2 _ Hh).
@@ -826,6 +835,7 @@ Lemma reused_pipeline_differs rid q clk off h :
   normalise (r_emitted (execute_traced (mkEnv rid q true clk off h) wit_sweep s0)).
 Proof.
   intros Hs Heq. apply (f_equal (@hd_error _)) in Heq. unfold Trace.execute_traced in Heq. rewrite Hs in Heq.
+  simpl in Heq. rewrite andb_false_r in Heq.
   destruct (f_inst_in_try F); unfold protected, body in Heq; simpl in Heq; discriminate.
 Qed.
 End Repro.
